@@ -237,6 +237,11 @@ def expected_sets(case, raw):
         if np.dtype(case["stored"]).kind == "f" if case["stored"] != "rgb" \
                 else False:
             exact_class = exact_class and True
+    if case.get("content") == "near_tie" and (use_scaling or mm is not None):
+        # values with a full mantissa: the header scaling / rescaling is
+        # floating-point arithmetic on them and has to round (0.5 - 2^-53
+        # times 2 plus 100.5 is 101.5 in float64), whatever the factors
+        exact_class = False
     # an image object holding a float32 array (never a file) is rescaled in
     # the array's own precision: the statement is about volume files, so only
     # float32 accuracy is demanded there
